@@ -54,14 +54,18 @@ Section IO.
   Variable readN : token -> option (N * option token). (* is >> size_t / unsigned long *)
   Variable at_tok : token.                             (* "@" *)
   Variable split_at : token -> option (option token).  (* token starts with '@'? rest of it *)
+  Variable tsize : token -> nat.                       (* number of characters of a token *)
 
   Definition stream := list token.
+  (* characters left on the stream (whitespace not counted) *)
+  Fixpoint stream_size (is : stream) : nat :=
+    match is with [] => O | t :: rest => tsize t + stream_size rest end.
 
   Inductive rres (A : Type) :=
   | ROk (a : A) (rest : stream)
   | RFail              (* failbit set *)
   | RThrow             (* std::invalid_argument escaped *)
-  | RFuel.             (* model ran out of fuel (never happens with fuel = S (length toks)) *)
+  | RFuel.             (* model ran out of fuel (unreachable: ProofsFuel.v) *)
   Arguments ROk {A}. Arguments RFail {A}. Arguments RThrow {A}. Arguments RFuel {A}.
 
   Definition bind {A B} (r : rres A) (f : A -> stream -> rres B) : rres B :=
@@ -362,8 +366,9 @@ Section IO.
           ROk {| vValues := values; vAction := action; vObs := obs |} is3))).
 
   (* src: POMDP/IO.cpp:operator>>(std::istream&, Policy&) — the while(true) loop.
-     vf = prev ++ [cur] (cur = vf.back()).  With the real extractors every iteration consumes at
-     least one character, so fuel = S (length toks) is never exhausted on real streams. *)
+     vf = prev ++ [cur] (cur = vf.back()).  Every iteration extracts the action, hence consumes at
+     least one character: fuel = S (characters on the stream) is never exhausted
+     (ProofsFuel.v: pomdp_policy_reader_terminates). *)
   Fixpoint pp_loop (fuel : nat) (S A O : nat) (is : stream) (prev : list vlist) (cur : vlist)
            (oldH : nat) (newHorizon : bool) : rres (list vlist) :=
     match fuel with
@@ -382,7 +387,7 @@ Section IO.
     end.
 
   Definition parse_pomdp_policy (S A O : nat) (is : stream) : rres pomdp_policy :=
-    bind (pp_loop (Datatypes.S (length is)) S A O is [] [h0_entry S] 1 true) (fun vf rest =>
+    bind (pp_loop (Datatypes.S (stream_size is)) S A O is [] [h0_entry S] 1 true) (fun vf rest =>
       ROk {| ppS := S; ppA := A; ppO := O; ppH := length vf - 1; ppVF := vf |} rest).
   (* p.H = …; p.policy_ = std::move(vf) only after the loop; `failure:` does not touch p *)
   Definition read_pomdp_policy (is : stream) (dest : pomdp_policy) : pomdp_policy * rres pomdp_policy :=
